@@ -24,7 +24,7 @@ def build(shape, rng, solver_results=False):
 
     nt, ns, nl = shape["nt"], shape["ns"], shape["nl"]
     ny, nx = 4, 5
-    names = ["west_mast", "T10", "east_mast", "T2"]   # deliberately not in sorted order
+    names = ["west_mast", "T10", "east_mast", "T2"] + ["m%02d" % (97 - 7 * k) for k in range(12)]   # deliberately not in sorted order
     towers = [{"name": names[i], "lat": 50.0 + 0.0011 * (i + 1), "lon": 11.0 - 0.0007 * (i + 1), "z_m": 5.0 + 1.5 * i} for i in range(nt)]
     met = {"mol": [-50.0 - 3.0 * t for t in range(ns)], "wind_speed": [2.0 + 0.25 * t for t in range(ns)], "wind_dir": [10.0 + 33.0 * t for t in range(ns)]}
     if shape["forcing"] == "ustar":
@@ -202,6 +202,13 @@ def main():
         chk.case(json.dumps(s, sort_keys=True), nontrivial=s["nt"] * s["ns"] > 1)
         check_shape(chk, s, rng, work)
     chk.traces = len(shapes)
+    # LARGE result sets (TLC enumerates up to 4 towers x 4 steps x 3 levels; the placement does not depend on the size -
+    # an implementation might): many towers, many steps, both timestamp forms
+    for big in ({"nt": 9, "ns": 14, "nl": 3, "ts": "label", "forcing": "ustar"}, {"nt": 16, "ns": 3, "nl": 0, "ts": "index", "forcing": "z0"},
+                {"nt": 2, "ns": 40, "nl": 1, "ts": "label", "forcing": "ustar"}):
+        chk.case(json.dumps(big, sort_keys=True))
+        check_shape(chk, big, rng, work)
+        chk.traces += 1
     # histories of saves and loads over paths in one process (spec/NetcdfFiles.tla)
     rf = run_tlc("NetcdfFiles", "MC_NetcdfFiles", workers=4)
     chk.add_tlc("MC_NetcdfFiles", rf)
